@@ -59,7 +59,7 @@ Addr(f, o) == <<f.id, o>>
 (* Transactions as lance records them                                      *)
 (***************************************************************************)
 NoTxn == [kind |-> "none", upd |-> {}, rem |-> {}, affected |-> {}, hasAffected |-> FALSE,
-          old |-> {}, newRows |-> <<>>, delIds |-> {}, restoreTo |-> 0]
+          old |-> {}, newRows |-> <<>>, delIds |-> {}, restoreTo |-> 0, newIx |-> [has |-> FALSE, frags |-> {}, snap |-> <<>>]]
 Mod(t) == t.upd \cup t.rem \cup t.old
 
 \* check_txn: outcome of committing `self` after `other` has committed
@@ -82,8 +82,10 @@ Check(self, other) ==
                  ELSE IF other.rem \cap Mod(self) # {} THEN "retryable"
                  ELSE "rebase"           \* decided in Finish by the deletion vectors
             [] OTHER -> "ok")
+    [] sk = "index" -> IF ok = "rewrite" /\ other.old \cap self.newIx.frags # {} THEN "retryable" ELSE "ok"
     [] sk = "rewrite" ->
          (CASE ok = "append" -> "ok"
+            [] ok = "index" -> IF other.newIx.frags \cap self.old # {} THEN "retryable" ELSE "ok"
             [] ok \in {"delete", "update"} -> IF Mod(other) \cap self.old # {} THEN "retryable" ELSE "ok"
             [] ok = "rewrite" -> IF other.old \cap self.old # {} THEN "retryable" ELSE "ok"
             [] OTHER -> "ok")
@@ -112,13 +114,16 @@ VARIABLES vers,     \* sequence of versions
           truth,    \* ghost: id -> [cre, upd] for rows of the serial table
           serial,   \* ghost: logical table by serial replay
           lastRes,  \* result class of the last operation
+          ix,       \* per version: the scalar index on column val ([has, frags (fragment bitmap), snap (key -> indexed value)])
           reused,   \* ghost: TRUE once a stable row id was handed out a second time
           nops,     \* number of operations so far
           hist      \* ghost: the operation history (scenario), hidden by VIEW
-vars == <<vers, hv, issued, truth, serial, lastRes, reused, nops, hist>>
-view == <<vers, hv, issued, truth, serial, lastRes, reused, nops>>
+vars == <<vers, hv, ix, issued, truth, serial, lastRes, reused, nops, hist>>
+view == <<vers, hv, ix, issued, truth, serial, lastRes, reused, nops>>
 
 Latest == vers[Len(vers)]
+NoIx == [has |-> FALSE, frags |-> {}, snap |-> <<>>]
+LatestIx == ix[Len(ix)]
 NV == Len(vers)
 
 InitRows == {<<>>} \cup {<<[id |-> 1, val |-> 1]>>, <<[id |-> 1, val |-> 1], [id |-> 2, val |-> NULL]>>}
@@ -145,6 +150,7 @@ Init ==
           /\ truth = IF two THEN (1 :> [cre |-> 1, upd |-> 1] @@ 2 :> [cre |-> 1, upd |-> 1] @@ 3 :> [cre |-> 2, upd |-> 2])
                      ELSE (1 :> [cre |-> 1, upd |-> 1] @@ 2 :> [cre |-> 1, upd |-> 1])
           /\ hist = <<[op |-> "init", two |-> two]>>
+          /\ ix = IF two THEN <<NoIx, NoIx>> ELSE <<NoIx>>
   /\ hv = [h \in Handles |-> Len(vers)]     \* every writer has the table open at the latest version
   /\ lastRes = "ok"
   /\ reused = FALSE
@@ -185,13 +191,17 @@ Rebased(t, L) ==
 
 Push(v, res, step) ==
   /\ vers' = Append(vers, v)
+  /\ ix' = Append(ix, CASE v.txn.kind \in {"overwrite"} -> NoIx
+                        [] v.txn.kind = "restore" -> ix[v.txn.restoreTo]
+                        [] v.txn.kind = "index" -> v.txn.newIx
+                        [] OTHER -> LatestIx)
   /\ lastRes' = res
   /\ hist' = Append(hist, step)
 
 Fail(res, step) ==
   /\ lastRes' = res
   /\ hist' = Append(hist, [step EXCEPT !.res = res])
-  /\ UNCHANGED <<vers, hv, issued, truth, serial, reused>>
+  /\ UNCHANGED <<vers, hv, ix, issued, truth, serial, reused>>
 
 (***************************************************************************)
 (* Operations                                                              *)
@@ -204,7 +214,7 @@ Checkout(h, v) ==
   /\ hv' = [hv EXCEPT ![h] = v]
   /\ lastRes' = "ok"
   /\ hist' = Append(hist, [op |-> "checkout", h |-> h, v |-> v, res |-> "ok"])
-  /\ UNCHANGED <<vers, issued, truth, serial, reused>>
+  /\ UNCHANGED <<vers, ix, issued, truth, serial, reused>>
   /\ nops' = nops + 1
 
 NewVer == NV + 1
@@ -242,7 +252,7 @@ DoDelete(h, S) ==
          res == IF dp.affected = {} THEN "noop" ELSE Outcome(t, rv)
          step == [op |-> "delete", h |-> h, ids |-> S, res |-> res]
      IN IF res = "noop" THEN /\ lastRes' = "ok" /\ hist' = Append(hist, [step EXCEPT !.res = "ok"])
-                             /\ UNCHANGED <<vers, hv, issued, truth, serial, reused>>
+                             /\ UNCHANGED <<vers, hv, ix, issued, truth, serial, reused>>
         ELSE IF res # "ok" THEN Fail(res, step)
         ELSE LET L == Latest
                  v == [frags |-> DropEmpty(ApplyDel(L.frags, t)), maxFrag |-> L.maxFrag, nextRid |-> L.nextRid, txn |-> Rebased(t, L)]
@@ -265,7 +275,7 @@ DoUpdate(h, S, nv) ==
          res == IF olds = <<>> THEN "noop" ELSE Outcome(t, rv)
          step == [op |-> "update", h |-> h, ids |-> S, val |-> nv, res |-> res]
      IN IF res = "noop" THEN /\ lastRes' = "ok" /\ hist' = Append(hist, [step EXCEPT !.res = "ok"])
-                             /\ UNCHANGED <<vers, hv, issued, truth, serial, reused>>
+                             /\ UNCHANGED <<vers, hv, ix, issued, truth, serial, reused>>
         ELSE IF res # "ok" THEN Fail(res, step)
         ELSE LET L == Latest
                  \* updated rows keep their stable row id and creation version
@@ -325,13 +335,15 @@ DoUpsert(h, sid, sval) ==
 \* compaction of all fragments into one (materialising deletions); planned at the read version
 DoCompact(h) ==
   /\ "compact" \in OpKinds /\ CanWrite(h) /\ NV + 1 < MaxVersions
+  \* the planner never mixes indexed and unindexed fragments in one rewrite group
+  /\ LET fi == FragIds(vers[hv[h]]) IN ~ix[hv[h]].has \/ fi \subseteq ix[hv[h]].frags \/ fi \cap ix[hv[h]].frags = {}
   /\ LET rv == hv[h]
          R == vers[rv]
          t == [NoTxn EXCEPT !.kind = "rewrite", !.old = FragIds(R)]
          res == IF Len(R.frags) < 2 /\ (\A i \in 1..Len(R.frags) : R.frags[i].del = {}) THEN "noop" ELSE Outcome(t, rv)
          step == [op |-> "compact", h |-> h, res |-> res]
      IN IF res = "noop" THEN /\ lastRes' = "ok" /\ hist' = Append(hist, [step EXCEPT !.res = "ok"])
-                             /\ UNCHANGED <<vers, hv, issued, truth, serial, reused>>
+                             /\ UNCHANGED <<vers, hv, ix, issued, truth, serial, reused>>
         ELSE IF res # "ok" THEN Fail(res, step)
         ELSE LET L == Latest
                  rows == Scan(R)
@@ -340,7 +352,11 @@ DoCompact(h) ==
                  nf == [id |-> L.maxFrag + 1, rows |-> rows, del |-> {}]
                  keep == SelectSeq(L.frags, LAMBDA f : f.id \notin t.old)
                  v == [frags |-> <<nf>> \o keep, maxFrag |-> L.maxFrag + 1, nextRid |-> L.nextRid, txn |-> t]
+                 covered == LatestIx.has /\ t.old \subseteq LatestIx.frags
+                 ixn == IF ~LatestIx.has THEN LatestIx
+                        ELSE [LatestIx EXCEPT !.frags = (@ \ t.old) \cup (IF covered THEN {L.maxFrag + 1} ELSE {})]
              IN /\ vers' = vers \o <<vr, v>>
+                /\ ix' = ix \o <<LatestIx, ixn>>
                 /\ lastRes' = "ok"
                 /\ hist' = Append(hist, step)
                 /\ hv' = [hv EXCEPT ![h] = NV + 2]
@@ -380,6 +396,23 @@ DoRestore(h, ver) ==
         /\ UNCHANGED <<issued, reused>>
   /\ nops' = nops + 1
 
+\* build a scalar index on column val from the read version; commits on top of the latest version
+DoIndex(h) ==
+  /\ "index" \in OpKinds /\ CanWrite(h)
+  /\ LET rv == hv[h]
+         R == vers[rv]
+         nix == [has |-> TRUE, frags |-> FragIds(R), snap |-> [i \in {r.id : r \in RowSet(R)} |-> (CHOOSE r \in RowSet(R) : r.id = i).val]]
+         t == [NoTxn EXCEPT !.kind = "index", !.newIx = nix]
+         res == Outcome(t, rv)
+         step == [op |-> "index", h |-> h, res |-> res]
+     IN IF res # "ok" THEN Fail(res, step)
+        ELSE LET L == Latest
+                 v == [L EXCEPT !.txn = t]
+             IN /\ Push(v, "ok", step)
+                /\ hv' = [hv EXCEPT ![h] = NewVer]
+                /\ UNCHANGED <<issued, truth, serial, reused>>
+  /\ nops' = nops + 1
+
 FreshRows == {<<[id |-> i, val |-> v]>> : i \in Ids, v \in AllVals}
              \cup (IF MaxBatch >= 2
                    THEN {<<[id |-> p[1], val |-> v], [id |-> p[2], val |-> w]>> :
@@ -395,6 +428,7 @@ Next ==
   \/ \E h \in Handles : DoCompact(h)
   \/ \E h \in Handles, rows \in FreshRows : DoOverwrite(h, rows)
   \/ \E h \in Handles, v \in 1..MaxVersions : DoRestore(h, v)
+  \/ \E h \in Handles : DoIndex(h)
 
 Spec == Init /\ [][Next]_vars
 
@@ -427,6 +461,15 @@ VersionColumnsCorrect ==
 RestoreEqualsOld == Latest.txn.kind = "restore" => Scan(Latest) = Scan(vers[Latest.txn.restoreTo])
 \* C13: a rewrite does not change contents
 RewritePreservesContents == (Latest.txn.kind = "rewrite" /\ NV >= 3) => RowSet(Latest) = RowSet(vers[NV-2])
+
+\* C24: wherever the index claims a fragment, every live row there has the value the index saw
+IndexCoverageSound ==
+  /\ Len(ix) = NV
+  /\ \A k \in 1..NV : ix[k].has =>
+        \A i \in 1..Len(vers[k].frags) :
+          LET f == vers[k].frags[i] IN
+          f.id \in ix[k].frags =>
+            \A o \in LiveOffs(f) : f.rows[o+1].id \in DOMAIN ix[k].snap /\ ix[k].snap[f.rows[o+1].id] = f.rows[o+1].val
 
 TypeOK == /\ NV >= 1 /\ NV <= MaxVersions
           /\ lastRes \in {"ok", "retryable", "incompatible"}
